@@ -151,7 +151,7 @@ _t('C05', 'Theorems with no hypothesis on operands or bound (Z arithmetic): aln/
           'count_true (C05_aln … C05_eq), and the language-level mapping of <, > and of every literal n : N incl. the clamp for n >= 2^63 (C05_lang). '
           'Correspondence: exhaustive operand lists over the 16 two-variable functions x bounds -3..6, list-vs-list grids, random lists with bounds at '
           '+-len and at the i64 limits. The language-level half is additionally exercised by the C01 suites.')
-_t('C06', 'Theorems: exact characterisation of the library iterator fp (C06_fp: the first iterate that t maps to itself), the substitution/scoping lemma '
+_t('C06', 'Theorems: exact characterisation of the library iterator fp (C06_fp: the first iterate that t maps to itself); the substitution/scoping lemma for fixed-point names with both shadowing cases (C06_scope); a syntactic criterion for monotonicity (C06_lfp_positive / C06_gfp_positive, from mono_pos): for EVERY fixed-point-free body in which every free occurrence of X has positive polarity - under and/or/if-branches/quantifiers/at-least counting/an even number of negations - evaluation of lfp X # T / gfp X # T terminates at a reduced ordered r that is a fixed point of the body and below every pre-fixed point / above every post-fixed point among all denotations; the same for semantically monotone fix-free bodies (C06_lfp, C06_gfp). Nested fixed points are covered by the correspondence only. '
           'for fixed-point names (C06_scope), and for fix-free monotone bodies termination of evaluation at a reduced ordered r that is a fixed point and '
           'below every pre-fixed point / above every post-fixed point among all denotations (C06_lfp, C06_gfp). Correspondence for the iterator: fp programs '
           'over 3 variables with constant, chain, identity, negation (divergent) and random monotone / arbitrary bodies, some nested; language-level fixed points are exercised by the C01 suites.')
@@ -171,7 +171,7 @@ _t('C01', 'Theorems for the whole language (all connectives and spellings via th
           '(C01_complete); hence b = T iff valid and b = F iff unsatisfiable (C01_valid/unsat). Den is the documented semantics written as a Prop-valued recursive function. '
           'Correspondence: tokenizer, parser and evaluator of src/parser.rs against tokenize/parse/eval_f on ~680k texts per quick run (result diagrams compared structurally, variables by id after the id assignment itself is compared).',
    NOTE_TEXT)
-_t('C08', 'Theorems: the scanner satisfies the maximal-munch lexing relation Lexes for every text (C08_lex); for every text that tokenizes, parse ts = Ok f iff G_formula ts f for the unambiguous '
+_t('C08', 'Theorems: the scanner satisfies the maximal-munch lexing relation Lexes for every text and that relation is functional, so the scanner output is THE tokenisation (C08_lex, C08_lex_unique); for every text that tokenizes, parse ts = Ok f iff G_formula ts f for the unambiguous '
           'closed/open grammar (C08_parse: soundness and completeness, all 32 token kinds, optional trailing commas, right-associative operators without precedence, bodies extending right), and derivations are unique (C08_unique). '
           'Correspondence: all strings <=4 over a 22-character alphabet (every regex alternation), all keyword/symbol spellings pairwise, all token sequences <=3 over 36 tokens and 4 over 20, plus random and mutated texts; any accept/reject or tree difference is itself a failing input because the model verdict is the grammar verdict.',
    NOTE_TEXT)
